@@ -205,26 +205,32 @@ theorem setMtu_accepted_mtu (k : Kcp) (m : Int) (h : MtuAcceptable k m) :
   simp only [IKCP_OVERHEAD, mtuLimit] at h1 h2
   omega
 
+/-- the state `SetMtu` installs for an acceptable value satisfies the invariant (whatever the state before) -/
+theorem setMtu_installed_inv (k : Kcp) (m : Int) (ha : MtuAcceptable k m) :
+    InvMss { k with mtu := BitVec.ofInt 32 m, mss := BitVec.ofInt 32 m - u32 IKCP_OVERHEAD,
+                    bufLen := (m.toNat + IKCP_OVERHEAD) * 3 } := by
+  have hm := setMtu_accepted_mtu k m ha
+  rw [setMtu_of_acceptable k m ha] at hm
+  obtain ⟨h1, h2, h3⟩ := ha
+  change ((BitVec.ofInt 32 m).toNat : Int) = m at hm
+  have hgt : (BitVec.ofInt 32 m).toNat > IKCP_OVERHEAD := by omega
+  have hmss : (BitVec.ofInt 32 m - u32 IKCP_OVERHEAD).toNat = (BitVec.ofInt 32 m).toNat - IKCP_OVERHEAD := by
+    simp only [u32, IKCP_OVERHEAD] at hgt ⊢
+    bv_omega
+  have hle : (BitVec.ofInt 32 m).toNat ≤ mtuLimit + IKCP_OVERHEAD := by omega
+  refine ⟨?_, rfl, hgt, hle, ?_⟩
+  · intro s hs
+    have := h3 s hs
+    show s.data.length ≤ (BitVec.ofInt 32 m - u32 IKCP_OVERHEAD).toNat
+    rw [hmss]; omega
+  · show (m.toNat + IKCP_OVERHEAD) * 3 = ((BitVec.ofInt 32 m).toNat + IKCP_OVERHEAD) * 3
+    have : m.toNat = (BitVec.ofInt 32 m).toNat := by omega
+    rw [this]
+
 /-- `SetMtu` preserves the invariant for EVERY integer argument -/
 theorem setMtu_inv (k : Kcp) (m : Int) (h : InvMss k) : InvMss (setMtu k m).1 := by
   by_cases ha : MtuAcceptable k m
-  · have hm := setMtu_accepted_mtu k m ha
-    rw [setMtu_of_acceptable k m ha] at hm ⊢
-    obtain ⟨h1, h2, h3⟩ := ha
-    change ((BitVec.ofInt 32 m).toNat : Int) = m at hm
-    have hgt : (BitVec.ofInt 32 m).toNat > IKCP_OVERHEAD := by omega
-    have hmss : (BitVec.ofInt 32 m - u32 IKCP_OVERHEAD).toNat = (BitVec.ofInt 32 m).toNat - IKCP_OVERHEAD := by
-      simp only [u32, IKCP_OVERHEAD] at hgt ⊢
-      bv_omega
-    have hle : (BitVec.ofInt 32 m).toNat ≤ mtuLimit + IKCP_OVERHEAD := by omega
-    refine ⟨?_, rfl, hgt, hle, ?_⟩
-    · intro s hs
-      have := h3 s hs
-      show s.data.length ≤ (BitVec.ofInt 32 m - u32 IKCP_OVERHEAD).toNat
-      rw [hmss]; omega
-    · show (m.toNat + IKCP_OVERHEAD) * 3 = ((BitVec.ofInt 32 m).toNat + IKCP_OVERHEAD) * 3
-      have : m.toNat = (BitVec.ofInt 32 m).toNat := by omega
-      rw [this]
+  · rw [setMtu_of_acceptable k m ha]; exact setMtu_installed_inv k m ha
   · rw [setMtu_of_not_acceptable k m ha]; exact h
 
 /-! ### Input -/
